@@ -126,15 +126,15 @@ class Resolved:
             self.succ[node] = out
             self.has_unsetup[node] = any(d["k"] in ("unreq", "unopt") for d in p["deps"])
 
-    def closure(self, root):
+    def closure(self, root, ignore_j=False):
         """(listed nodes, expanded nodes): listed = targets of edges of expanded nodes; a node is expanded when it is
-        the root or a declared product reached through an edge without -j."""
+        the root or a declared product reached through an edge without -j (any edge when ignore_j)."""
         expanded, listed, todo = {root}, set(), [root]
         while todo:
             u = todo.pop()
             for t, j, _ in self.succ.get(u, []):
                 listed.add(t)
-                if t[2] and not j and t not in expanded:
+                if t[2] and (ignore_j or not j) and t not in expanded:
                     expanded.add(t)
                     todo.append(t)
         return listed, expanded
